@@ -1681,6 +1681,9 @@ func (s *BgpServer) handleFSMMessage(peer *peer, e *fsmMsg) {
 				s.propagateUpdate(peer, peer.StaleAll(gracefulFamilies))
 			} else {
 				dropFamilies = peer.configuredRFlist()
+				// nothing is retained any more: an earlier restart of the peer that
+				// was still being waited out (PeerRestarting, LLGR timers) ends here
+				peer.stopPeerRestarting()
 			}
 
 			// Always clear EndOfRibReceived state on PeerDown
